@@ -102,6 +102,10 @@ func runC03(c *harness.Ctx) {
 		pad := edgeRange(c, name+".pad", obfs4ref.ClientMinPad, obfs4ref.ClientMaxPad)
 		arg1, arg2, arg3 := t.Draw(name+".a1", 1<<16), t.Draw(name+".a2", 8), t.Draw(name+".a3", 1000)
 		pauseMid := []time.Duration{0, 0, time.Second, 29 * time.Second, 31 * time.Second}[t.Draw(name+".pause", 5)]
+		// what becomes of the original of a replay: answered and read as usual, or
+		// its answer gets stuck in a send buffer nobody empties, or the original
+		// client is gone before the answer can be written
+		origHow := []string{"answered", "answered", "answer-stalled", "gone-before-answer"}[t.Draw(name+".orig", 4)]
 
 		c.S.Go(fmt.Sprintf("s%d/accept", i), func() {
 			c.S.Sleep(startOff)
@@ -182,6 +186,11 @@ func runC03(c *harness.Ctx) {
 					// first get a handshake accepted on a side link, then replay it here
 					sl := c.Net.NewLink(name+"x", fmt.Sprintf("s%dx", i))
 					okc := make(chan bool, 1)
+					seen := 0 // bytes of the original the server has taken off the wire
+					sl.B.OnRead = func(b []byte) { seen += len(b) }
+					if origHow == "answer-stalled" {
+						sl.BA.SndBuf = 100
+					}
 					c.S.Go(fmt.Sprintf("s%dx/accept", i), func() {
 						conn, err := factory.WrapConn(sl.B)
 						if err == nil {
@@ -190,11 +199,28 @@ func runC03(c *harness.Ctx) {
 						okc <- err == nil
 					})
 					sl.A.Write(valid)
-					if !<-okc {
-						c.Violate("C03/control-rejected", "a conforming handshake was rejected (needed as the original of a replay)")
-						return
+					switch origHow {
+					case "answered":
+						if !<-okc {
+							c.Violate("C03/control-rejected", "a conforming handshake was rejected (needed as the original of a replay)")
+							return
+						}
+						sl.A.Close()
+					default:
+						if origHow == "gone-before-answer" {
+							sl.A.Close()
+						}
+						// the server has the whole original; give it a virtual second to
+						// act on it (its answer is stuck, or fails)
+						for k := 0; k < 100 && seen < len(valid); k++ {
+							c.S.Sleep(100 * time.Millisecond)
+						}
+						c.S.Sleep(time.Second)
+						if seen < len(valid) {
+							return
+						}
+						c.Feature("replay-of-original-" + origHow)
 					}
-					sl.A.Close()
 					acceptedBlob = valid
 				}
 				msg = acceptedBlob
